@@ -121,6 +121,9 @@ func Load(cfg Config) *Ctx {
 					if obj, ok := p.TypesInfo.Defs[fd.Name].(*types.Func); ok {
 						c.funcDecls[obj] = fd
 						c.declPkg[obj] = p
+						if IsErrCtorFunc(prog.FuncValue(obj)) {
+							errCtorObjs[obj] = true
+						}
 					}
 				}
 			}
